@@ -96,6 +96,12 @@ func Unmarshal(s string, k protoreflect.Kind, evs protoreflect.EnumValueDescript
 			v = math.NaN()
 		default:
 			v, err = strconv.ParseFloat(s, 64)
+			if err == nil && k == protoreflect.FloatKind {
+				// Parse at float32 precision: narrowing the 64-bit result
+				// would round a second time. A value beyond the float32
+				// range still becomes an infinity, as the conversion did.
+				v, _ = strconv.ParseFloat(s, 32)
+			}
 		}
 		if err == nil {
 			if k == protoreflect.FloatKind {
